@@ -243,6 +243,36 @@ def c08_cases(rng, thorough):
     return cs, expect
 
 
+def pad_c_text_vs_real(rep, exe, cs, expect, n):
+    """Gen/Cir.lean's Avtp_Vss_Pad (and what it calls) run by the Lean C semantics vs the reference
+    result computed in c09_cases (which the compiled code is compared with in the same run)."""
+    import cirrun
+    gen = pipeline.translate()
+    if gen.get("failed") or gen.get("cir", {}).get("failed"):
+        return
+    ok, log = common.lake_build(["O1722.Gen.Cir", "O1722.Gen.Data", "O1722.CSem.Eval"])
+    if not ok:
+        return
+    pads = [i for i in sorted(expect) if cs.tags[i].get("what") == "pad"]
+    step = max(1, len(pads) // n)
+    idx = pads[::step][:n]
+    mc = []
+    for i in idx:
+        buf = bytes.fromhex(cs.cases[i][0].split()[2])
+        mc.append(("Avtp_Vss_Pad", [65536, cs.tags[i]["len"]], list(buf), []))
+    res = cirrun.mem_cases(mc, "cirrun_pad")
+    nbad = 0
+    for k, i in enumerate(idx):
+        want = expect[i][0].split()[1]
+        if res[k][1] != want:
+            nbad += 1
+            rep.violation("Vss:pad:c-text-vs-reference:len%%4=%d" % (cs.tags[i]["len"] % 4),
+                          {"kind": "serialised-C-text-under-the-Lean-C-semantics-differs-from-the-reference-result", "ops": cs.cases[i][:3],
+                           "c_text_under_CSem": list(res[k]), "reference": want})
+    rep.cov["c_text_vs_real"] = {"cases": len(idx), "disagreements": nbad,
+                                 "what": "Gen/Cir.lean (Avtp_Vss_Pad and everything it calls) interpreted by CSem/Eval.lean vs the reference bytes the compiled code is held to"}
+
+
 def c09_cases(rng, thorough):
     cs = common.Cases()
     expect = {}
@@ -501,6 +531,7 @@ def check(rep, prop, tier, seed):
             diff_groups.setdefault("Vss", []).append(i)
     if prop == "C09":
         cbmc_pad(rep, thorough)
+        pad_c_text_vs_real(rep, exe, cs, expect, 300 if thorough else 80)
     if prop in ("C07", "C08"):
         cbmc_scalars(rep, prop, thorough)
     if prop == "C10":
